@@ -110,6 +110,25 @@ class Gen:
         hsh = xh(integrity(self.r.choice([b"hello", b"other"]))) if self.r.random() < 0.3 else "-"
         p_collide = self.p.get("p_import_collide", 0.1)
         p_reg = self.p.get("p_import_reg", 0.25)
+        if self.r.random() < self.p.get("p_import_flip", 0.06) and (len(self.ctxs) > 1 or any(d.startswith("@") for d in self.dead_ctxs)):
+            # an import that turns a stored non-registration into a registration of the same id, or the reverse: the id is a
+            # context from exactly that moment / no longer one, before and after a reopen
+            dead = [d for d in self.dead_ctxs if d.startswith("@")]
+            if dead and (len(self.ctxs) <= 1 or self.r.random() < 0.6):
+                d = self.r.choice(dead)
+                ln = self.emit(f"import {d} - {xh(XS_CONTEXT)} - {xh(meta) if meta else '-'} {self.r.choice(['-', 'forever'])}", "import_becomes_reg")
+                self.dead_ctxs.remove(d)
+                self.ctxs.append(d)
+            else:
+                c = self.r.choice(self.ctxs[1:])
+                into = self.r.choice([x for x in self.ctxs if x != c] + ["#7"])
+                topic = self.r.choice([XS_CONTEXT, XS_CONTEXT, "a", self.pick_topic()]) if into != "-" else self.r.choice(["a", "xs.contexts"])
+                if "\x00" in topic:
+                    topic = "a"
+                ln = self.emit(f"import {c} {into} {xh(topic)} - {xh(meta) if meta else '-'} -", "import_unregisters")
+                self.ctxs.remove(c)
+                self.dead_ctxs.append(c)
+            return
         if r < p_reg:
             # import a registration frame (fresh small id, adjacent to an existing ctx, or arbitrary)
             base = self.r.choice(self.ctxs[1:]) if len(self.ctxs) > 1 and self.r.random() < 0.6 else None
